@@ -195,12 +195,12 @@ type FuncResult struct {
 }
 
 type Run struct {
-	e       *Engine
-	Funcs   []*FuncResult
-	Lemmas  []*Obligation
-	Stats   *SolverStats
-	Wall    float64
-	Broken  []string
+	e      *Engine
+	Funcs  []*FuncResult
+	Lemmas []*Obligation
+	Stats  *SolverStats
+	Wall   float64
+	Broken []string
 }
 
 func (r *Run) allObs() []*Obligation {
@@ -532,126 +532,126 @@ func (e *Engine) solveAll(obs []*Obligation, stats *SolverStats) {
 		go func() {
 			defer wg.Done()
 			for q := range ch {
-			  func() {
-				group := cache[q]
-				first := group[0]
-				tq := time.Now()
-				defer func(name string) {
-					if e.opts.Verbose && time.Since(tq).Seconds() > 2.5 {
-						fmt.Fprintf(os.Stderr, "slow: %.1fs %s\n", time.Since(tq).Seconds(), name)
-					}
-				}(first.Name)
-				name := fmt.Sprintf("%x", hashString(q))
-				ckey := ""
-				if e.cache != nil {
-					ckey = proofKey(q)
-					if first.Kind == "reach" {
-						ckey = "reach:" + ckey
-					}
-					if e.cache.has(ckey) {
-						res := SolveResult{Status: "unsat", Solver: "cache"}
+				func() {
+					group := cache[q]
+					first := group[0]
+					tq := time.Now()
+					defer func(name string) {
+						if e.opts.Verbose && time.Since(tq).Seconds() > 2.5 {
+							fmt.Fprintf(os.Stderr, "slow: %.1fs %s\n", time.Since(tq).Seconds(), name)
+						}
+					}(first.Name)
+					name := fmt.Sprintf("%x", hashString(q))
+					ckey := ""
+					if e.cache != nil {
+						ckey = proofKey(q)
 						if first.Kind == "reach" {
-							res.Status = "sat" // a cached reachability verdict: the path condition was not refuted
+							ckey = "reach:" + ckey
 						}
-						for _, o := range group {
-							o.Result = res
+						if e.cache.has(ckey) {
+							res := SolveResult{Status: "unsat", Solver: "cache"}
+							if first.Kind == "reach" {
+								res.Status = "sat" // a cached reachability verdict: the path condition was not refuted
+							}
+							for _, o := range group {
+								o.Result = res
+							}
+							return
 						}
-						return
 					}
-				}
-				defer func() {
-					if ckey == "" {
-						return
-					}
-					if first.Kind == "reach" {
-						if group[0].Result.Status != "unsat" && group[0].Result.Status != "error" {
+					defer func() {
+						if ckey == "" {
+							return
+						}
+						if first.Kind == "reach" {
+							if group[0].Result.Status != "unsat" && group[0].Result.Status != "error" {
+								e.cache.add(ckey)
+							}
+						} else if group[0].Result.Status == "unsat" {
 							e.cache.add(ckey)
 						}
-					} else if group[0].Result.Status == "unsat" {
-						e.cache.add(ckey)
+					}()
+					to := e.opts.TimeoutS
+					if first.Kind == "reach" {
+						to = 2 // unknown is an acceptable answer for reachability
+					}
+					var res SolveResult
+					solveParts := func(parts []string, to int) SolveResult {
+						results := make([]SolveResult, len(parts))
+						var pwg sync.WaitGroup
+						for i, pq := range parts {
+							pwg.Add(1)
+							go func(i int, pq string) {
+								defer pwg.Done()
+								results[i] = SolveHint(e.opts.WorkDir, fmt.Sprintf("%x", hashString(pq)), pq, to, stats, first.Name+"#part")
+							}(i, pq)
+						}
+						pwg.Wait()
+						res := SolveResult{Status: "unsat", Solver: "split"}
+						for _, pr := range results {
+							if pr.Seconds > res.Seconds {
+								res.Seconds = pr.Seconds
+							}
+							if pr.Status != "unsat" {
+								return pr
+							}
+							res.Solver = pr.Solver + "(split)"
+						}
+						return res
+					}
+					// proof by framing: quantifier-free sufficient condition
+					if first.frameQuery != "" {
+						fr := SolveHint(e.opts.WorkDir, name+"f", first.frameQuery, 4, stats, first.Name+"#frame")
+						if fr.Status == "unsat" {
+							fr.Solver += "(framing)"
+							for _, o := range group {
+								o.Result = fr
+							}
+							return
+						}
+					}
+					// cheaper views first (sound: fewer assumptions)
+					for vi, vw := range first.views {
+						tu := to
+						if vw.budget > 0 && vw.budget < tu {
+							tu = vw.budget
+						}
+						if len(vw.parts) > 0 {
+							res = solveParts(vw.parts, tu)
+						} else {
+							res = SolveHint(e.opts.WorkDir, fmt.Sprintf("%sv%d", name, vi), vw.query, tu, stats, first.Name+"#"+vw.label)
+						}
+						if res.Status == "unsat" {
+							res.Solver += "(" + vw.label + ")"
+							for _, o := range group {
+								o.Result = res
+							}
+							return
+						}
+						if e.opts.Verbose && vw.label != "qf" {
+							fmt.Fprintf(os.Stderr, "%s-attempt failed (%s) for %s path=%v\n", vw.label, res.Status, first.Name, first.Path)
+						}
+					}
+					if len(first.parts) > 0 {
+						res = solveParts(first.parts, to)
+					} else {
+						res = SolveHint(e.opts.WorkDir, name, q, to, stats, first.Name)
+					}
+					if first.Kind == "reach" && res.Status == "unsat" {
+						// try alternative paths to the same return
+						for _, pc := range first.altPCs {
+							q2 := e.buildQueryLocked(pc)
+							r2 := Solve(e.opts.WorkDir, fmt.Sprintf("%x", hashString(q2)), q2, 2, stats)
+							if r2.Status != "unsat" {
+								res = r2
+								break
+							}
+						}
+					}
+					for _, o := range group {
+						o.Result = res
 					}
 				}()
-				to := e.opts.TimeoutS
-				if first.Kind == "reach" {
-					to = 2 // unknown is an acceptable answer for reachability
-				}
-				var res SolveResult
-				solveParts := func(parts []string, to int) SolveResult {
-					results := make([]SolveResult, len(parts))
-					var pwg sync.WaitGroup
-					for i, pq := range parts {
-						pwg.Add(1)
-						go func(i int, pq string) {
-							defer pwg.Done()
-							results[i] = SolveHint(e.opts.WorkDir, fmt.Sprintf("%x", hashString(pq)), pq, to, stats, first.Name+"#part")
-						}(i, pq)
-					}
-					pwg.Wait()
-					res := SolveResult{Status: "unsat", Solver: "split"}
-					for _, pr := range results {
-						if pr.Seconds > res.Seconds {
-							res.Seconds = pr.Seconds
-						}
-						if pr.Status != "unsat" {
-							return pr
-						}
-						res.Solver = pr.Solver + "(split)"
-					}
-					return res
-				}
-				// proof by framing: quantifier-free sufficient condition
-				if first.frameQuery != "" {
-					fr := SolveHint(e.opts.WorkDir, name+"f", first.frameQuery, 4, stats, first.Name+"#frame")
-					if fr.Status == "unsat" {
-						fr.Solver += "(framing)"
-						for _, o := range group {
-							o.Result = fr
-						}
-						return
-					}
-				}
-				// cheaper views first (sound: fewer assumptions)
-				for vi, vw := range first.views {
-					tu := to
-					if vw.budget > 0 && vw.budget < tu {
-						tu = vw.budget
-					}
-					if len(vw.parts) > 0 {
-						res = solveParts(vw.parts, tu)
-					} else {
-						res = SolveHint(e.opts.WorkDir, fmt.Sprintf("%sv%d", name, vi), vw.query, tu, stats, first.Name+"#"+vw.label)
-					}
-					if res.Status == "unsat" {
-						res.Solver += "(" + vw.label + ")"
-						for _, o := range group {
-							o.Result = res
-						}
-						return
-					}
-					if e.opts.Verbose && vw.label != "qf" {
-						fmt.Fprintf(os.Stderr, "%s-attempt failed (%s) for %s path=%v\n", vw.label, res.Status, first.Name, first.Path)
-					}
-				}
-				if len(first.parts) > 0 {
-					res = solveParts(first.parts, to)
-				} else {
-					res = SolveHint(e.opts.WorkDir, name, q, to, stats, first.Name)
-				}
-				if first.Kind == "reach" && res.Status == "unsat" {
-					// try alternative paths to the same return
-					for _, pc := range first.altPCs {
-						q2 := e.buildQueryLocked(pc)
-						r2 := Solve(e.opts.WorkDir, fmt.Sprintf("%x", hashString(q2)), q2, 2, stats)
-						if r2.Status != "unsat" {
-							res = r2
-							break
-						}
-					}
-				}
-				for _, o := range group {
-					o.Result = res
-				}
-			  }()
 			}
 		}()
 	}
